@@ -64,7 +64,7 @@ def build(chain):
             if kind == "num":
                 lines.append(f'{qn} = mkq({level}, lambda d: d[{level - 1}], "oops")')
             elif kind == "cat":
-                lines.append(f'{qn} = mkq({level}, lambda d: "c" if d[{level - 1}] > 0.5 else "d", 3.5)')
+                lines.append(f'{qn} = mkq({level}, lambda d: ("c" if d[{level - 1}] > 0.5 else "d") if d[{level - 1}] > -1.0 else (None if d[{level - 1}] > -1.5 else NAN), 3.5)')
             else:
                 lines.append(f'{qn} = mkq({level}, lambda d: d[{level - 1}] > -1.0, "oops")')
             expr = tmpl.format(q=qn, c=expr)
